@@ -357,6 +357,65 @@ func checkC04(c *hx.Checker) {
 			}
 		}
 	}
+	// one operand object in both slots (a value wired to both inputs): inner product of a vector with itself, a square
+	// matrix with itself
+	for _, sh := range [][]int{{3}, {2}, {2, 2}, {3, 3}, {2, 3, 3}} {
+		A := linFill(ref.F32, sh, 2)
+		exp, err := ref.MatMul(A, A)
+		j := newJob("MatMul", nil, []*ref.T{A, A}, []*ref.T{exp}, err, hx.DCompute, hx.Dot, "op-same", nil, fmt.Sprintf("same-object %v", sh), "same-object")
+		jobs = append(jobs, j)
+	}
+	// non-finite operands: an infinite or NaN element of one operand meets an exact zero of the other (0 * Inf = NaN
+	// belongs to the sum), for every transpose combination of Gemm and for MatMul
+	for _, special := range []float64{math.Inf(1), math.Inf(-1), math.NaN()} {
+		for _, inA := range []bool{true, false} {
+			for _, tA := range []bool{false, true} {
+				for _, tB := range []bool{false, true} {
+					M, K, N := 2, 3, 2
+					ash, bsh := []int{M, K}, []int{K, N}
+					if tA {
+						ash = []int{K, M}
+					}
+					if tB {
+						bsh = []int{N, K}
+					}
+					A, B := linFill(ref.F32, ash, 2), linFill(ref.F32, bsh, 5)
+					// logical A[0][1] is special and logical B[1][0] is zero (or the other way round): they meet in y[0][0]
+					ai, bi := 1, N
+					if tA {
+						ai = M
+					}
+					if tB {
+						bi = 1
+					}
+					sv, zv := ref.EncF(ref.F32, special), ref.EncF(ref.F32, 0)
+					if inA {
+						A.V[ai], B.V[bi] = sv, zv
+					} else {
+						A.V[ai], B.V[bi] = zv, sv
+					}
+					attrs := []hx.Attr{}
+					if tA {
+						attrs = append(attrs, hx.AInt("transA", 1))
+					}
+					if tB {
+						attrs = append(attrs, hx.AInt("transB", 1))
+					}
+					tags := []string{"non-finite"}
+					if !inA {
+						// the zero sits in the LEFT operand: the BLAS kernel skips zero multipliers of that side (KF-C04-2)
+						tags = append(tags, "zero-in-A-meets-non-finite-in-B")
+					}
+					exp, err := ref.Gemm(A, B, nil, 1, 1, tA, tB)
+					jobs = append(jobs, newJob("Gemm", attrs, []*ref.T{A, B}, []*ref.T{exp}, err, hx.DCompute, hx.Dot, "op", nil, fmt.Sprintf("non-finite %v inA=%v tA=%v tB=%v", special, inA, tA, tB), tags...))
+					if !tA && !tB {
+						exp2, err2 := ref.MatMul(A, B)
+						jobs = append(jobs, newJob("MatMul", nil, []*ref.T{A, B}, []*ref.T{exp2}, err2, hx.DCompute, hx.Dot, "op", nil, fmt.Sprintf("non-finite %v inA=%v", special, inA), tags...))
+					}
+				}
+			}
+		}
+	}
 	// integer MatMul (honoured exactly, in wrapping integer arithmetic as numpy does, or refused): elements and partial
 	// products beyond 2^53, operands near 2^31 whose large partial products cancel to a small result
 	for _, ic := range []struct {
